@@ -4,7 +4,8 @@ Four real Tubs on the in-memory network: owners A (model owner 0) and D (owner 1
 connections exist before a history starts.  The owners' objects are made by a factory and are alive ONLY through the
 connection tables.  A history is a list of harness actions; each action stands for a group of model ops:
 
-  ["export", o]            B asks owner o's factory for a new object and holds the proxy    -> TExport o x clid
+  ["export", o]            B asks owner o's factory for a new object and holds the proxy    -> TExport o x clid withurl
+                           (withurl: observed -- does the tracker B created carry a FURL)
   ["give", [i, j, ..]]     B calls C's sink with a list of its proxies i, j, ..             -> TGive k_i; TGive k_j; ..
   ["appdrop", i]           B's application forgets proxy i (+ gc)                           -> TAppDrop k_i
   ["register", i]          the owner's application calls registerReference(object i, name=<fresh name of its choosing>)
@@ -130,7 +131,7 @@ class History:
         except Exception as e:
             gifts = [["unreadable", repr(e)[:80]]]
         mine = set(self.keys.values())
-        bprox = sorted([o, c] for o in (0, 1) for c, t in W.b_to[o].yourReferenceByCLID.items()
+        bprox = sorted([o, c, 1 if t.url is not None else 0] for o in (0, 1) for c, t in W.b_to[o].yourReferenceByCLID.items()
                        if (o, c) in mine and t.ref is not None and t.ref() is not None)
         cprox = []
         for o in (0, 1):
@@ -217,8 +218,13 @@ class History:
         self.weak[(o, x)] = W.fac[o].made[name]
         t = self.weak[(o, x)]()
         self.want[(o, x)] = [name, id(t)]
+        # does the tracker B made for it carry a FURL?  (the model's TExport takes this as an input: lib/Refs.v says when a
+        # delivered proxy has one; here every export is a NEW object, i.e. a first my-reference)
+        withurl = p.tracker.url is not None
+        if not withurl:
+            self.flags.add("exported-without-url")
         del t, p
-        return [("TExport", o, x, self.keys[i][1])]
+        return [("TExport", o, x, self.keys[i][1], withurl)]
 
     def a_give(self, idxs):
         W = self.W
@@ -495,7 +501,7 @@ SIG_PROPERTY = {
 
 def coq_op(o):
     if o[0] == "TExport":
-        return "TExport %d %d %d" % (o[1], o[2], o[3])
+        return "TExport %d %d %d %s" % (o[1], o[2], o[3], "true" if (len(o) < 5 or o[4]) else "false")
     if o[0] == "TRegister":
         return "TRegister %d %d (%d)" % (o[1], o[2], o[3])
     if o[0] in ("TGive", "TAppDrop"):
@@ -508,7 +514,7 @@ def coq_op(o):
 COQ_OBS = """Local Open Scope Z_scope.
 Definition tobs (s : tstate) :=
   (map (fun e => [fst (ge_key e); snd (ge_key e); ge_id e; ge_count e]) (gifts s),
-   map (fun b => [fst (bp_key b); snd (bp_key b)]) (bprox s),
+   map (fun b => [fst (bp_key b); snd (bp_key b); match bp_url b with Some _ => 1 | None => 0 end]) (bprox s),
    map (fun p => [fst p; snd p]) (cprox s),
    [if gfail s then 1 else 0]).
 Definition ev_code (e : tevent) : Z :=
